@@ -106,10 +106,21 @@ Definition conv_int (f : fmt) (l : literal) : xres value :=
   | _ => XUnsup
   end.
 
-(** text accepted for a decimal given in quotes: [+-]? digits [. digits] with at least one digit;
-    other spellings strconv.ParseFloat knows (exponents, inf, nan, hex) are outside the model *)
-Definition only_decimal_chars (s : list byte) : bool :=
-  forallb (fun b => is_digit b || is_dot b || (bz b =? 43) || (bz b =? 45)) s.
+(** text accepted for a decimal given in quotes: [+-]? digits [. digits] with at least one digit.
+    strconv.ParseFloat also knows exponents, hexadecimal floats, inf / infinity / nan (any case):
+    text with an 'e' or an 'x' or spelling one of the special values is outside the model; every other
+    text is a syntax error. *)
+Definition lower (b : byte) : Z := if (65 <=? bz b) && (bz b <=? 90) then bz b + 32 else bz b.
+Fixpoint zs_eq (a b : list Z) : bool :=
+  match a, b with
+  | [], [] => true
+  | x :: a', y :: b' => (x =? y) && zs_eq a' b'
+  | _, _ => false
+  end.
+Definition maybe_float_syntax (body : list byte) : bool :=
+  let lo := map lower body in
+  existsb (fun z => (z =? 101) || (z =? 120)) lo
+  || zs_eq lo [105;110;102] || zs_eq lo [110;97;110] || zs_eq lo [105;110;102;105;110;105;116;121].
 
 Definition parse_decimal_text (s : list byte) : xres (bool * Z * Z) :=   (* negative, n, k *)
   let neg := match s with b :: _ => bz b =? 45 | [] => false end in
@@ -126,7 +137,7 @@ Definition parse_decimal_text (s : list byte) : xres (bool * Z * Z) :=   (* nega
     | Some n => XOk (neg, n, Z.of_nat (length fp))
     | None => XErr
     end
-  else if only_decimal_chars s then XErr else XUnsup.
+  else if maybe_float_syntax body then XUnsup else XErr.
 
 Definition conv_dec (l : literal) : xres value :=
   match l with
@@ -349,6 +360,37 @@ Section Export.
   (** list at [pth], present in the data *)
   Variable wlist : list nat -> list snode -> content -> snode -> xres bool.
 
+  (** one definition of a container-like node: skipped when its choice case is not the selected one,
+      else editor.leaf / editor.node on the reader side *)
+  Definition wexp_kid (rec : list nat -> snode -> dnode -> xres dnode) (pth : list nat) (usedflt : bool)
+             (kids : list snode) (sc : content) (i : nat) (k : snode) : xres (option dnode) :=
+    if negb (guard_selected (sguard k) kids sc) then XOk None else
+    match k with
+    | SLeaf _ _ _ dflt =>
+        xbind (wfield (pth ++ [i]) kids sc k) (fun ok =>
+          if ok then
+            XOk (match nth i sc None with
+                 | Some v => Some v
+                 | None => if usedflt then option_map DLeaf dflt else None
+                 end)
+          else XOk None)
+    | SCont _ _ =>
+        match nth i sc None with
+        | None => XOk None
+        | Some (DCont cc as sd) =>
+            xbind (wcont (pth ++ [i]) kids sc k cc) (fun ok =>
+              if ok then xbind (rec (pth ++ [i]) k sd) (fun r => XOk (Some r)) else XOk None)
+        | Some _ => XUnsup
+        end
+    | SList _ _ _ =>
+        match nth i sc None with
+        | None => XOk None
+        | Some sd =>
+            xbind (wlist (pth ++ [i]) kids sc k) (fun ok =>
+              if ok then xbind (rec (pth ++ [i]) k sd) (fun r => XOk (Some r)) else XOk None)
+        end
+    end.
+
   Fixpoint wexp (pth : list nat) (usedflt : bool) (s : snode) (d : dnode) {struct s} : xres dnode :=
     match s, d with
     | SCont _ kids, DCont sc =>
@@ -357,34 +399,7 @@ Section Export.
               match ks with
               | [] => XOk []
               | k :: ks' =>
-                  if negb (guard_selected (sguard k) kids sc) then xcons (XOk None) (go ks' (S i)) else
-                  let me : xres (option dnode) :=
-                    match k with
-                    | SLeaf _ _ _ dflt =>
-                        xbind (wfield (pth ++ [i]) kids sc k) (fun ok =>
-                          if ok then
-                            XOk (match nth i sc None with
-                                 | Some v => Some v
-                                 | None => if usedflt then option_map DLeaf dflt else None
-                                 end)
-                          else XOk None)
-                    | SCont _ _ =>
-                        match nth i sc None with
-                        | None => XOk None
-                        | Some (DCont cc as sd) =>
-                            xbind (wcont (pth ++ [i]) kids sc k cc) (fun ok =>
-                              if ok then xbind (wexp (pth ++ [i]) true k sd) (fun r => XOk (Some r)) else XOk None)
-                        | Some _ => XUnsup
-                        end
-                    | SList _ _ _ =>
-                        match nth i sc None with
-                        | None => XOk None
-                        | Some sd =>
-                            xbind (wlist (pth ++ [i]) kids sc k) (fun ok =>
-                              if ok then xbind (wexp (pth ++ [i]) true k sd) (fun r => XOk (Some r)) else XOk None)
-                        end
-                    end in
-                  xcons me (go ks' (S i))
+                  xcons (wexp_kid (fun p k' sd => wexp p true k' sd) pth usedflt kids sc i k) (go ks' (S i))
               end) kids O)
           (fun c' => XOk (DCont c'))
     | SList _ _ row, DList rows =>
@@ -536,4 +551,48 @@ Definition wupsert (kids : list snode) (src tgt : content) : xres content :=
   | XOk (DCont c') => XOk c'
   | XOk _ => XUnsup
   | XErr => XErr | XPanic => XPanic | XUnsup => XUnsup
+  end.
+
+(** * "every condition on the reader's way holds": the traversal of [wexp], asking CheckWhen at every
+    definition it reaches (used to state that conditions that hold are transparent) *)
+Definition whens_true_kid (rec : snode -> dnode -> bool) (kids : list snode) (sc : content) (i : nat) (k : snode) : bool :=
+  if negb (guard_selected (sguard k) kids sc) then true else
+  match k with
+  | SLeaf _ _ _ _ => match when_field true [] kids sc k with XOk true => true | _ => false end
+  | SCont _ _ =>
+      match nth i sc None with
+      | Some (DCont cc as sd) => match when_cont true [] kids sc k cc with XOk true => rec k sd | _ => false end
+      | _ => true
+      end
+  | SList _ _ _ =>
+      match nth i sc None with
+      | Some sd => match when_list true [] kids sc k with XOk true => rec k sd | _ => false end
+      | None => true
+      end
+  end.
+
+Fixpoint whens_true (s : snode) (d : dnode) {struct s} : bool :=
+  match s, d with
+  | SCont _ kids, DCont sc =>
+      (fix go (ks : list snode) (i : nat) {struct ks} : bool :=
+         match ks with
+         | [] => true
+         | k :: ks' => whens_true_kid (fun k' sd => whens_true k' sd) kids sc i k && go ks' (S i)
+         end) kids O
+  | SList _ _ row, DList rows =>
+      (fix each (rs : list dnode) : bool :=
+         match rs with [] => true | r :: rs' => whens_true row r && each rs' end) rows
+  | _, _ => true
+  end.
+
+(** what CheckWhen answers for the definition at position [i] of a container-like node *)
+Definition kid_when (kids : list snode) (sc : content) (i : nat) (k : snode) : xres bool :=
+  match k with
+  | SLeaf _ _ _ _ => when_field true [] kids sc k
+  | SCont _ _ =>
+      match nth i sc None with
+      | Some (DCont cc) => when_cont true [] kids sc k cc
+      | _ => XOk true
+      end
+  | SList _ _ _ => XOk true
   end.
